@@ -2,6 +2,7 @@
 From Coq Require Import List NArith Bool.
 Import ListNotations.
 Require Import Base.Wire Base.PyStr C17.Model C17.Names C17.Lemmas C17.Witness.
+Require gen.T17.
 
 Lemma C17_atomic_on_domain_l :
   forall cfg fn tok now chunk (f0 : fs) (ws : list bytes) k,
@@ -81,3 +82,38 @@ Proof.
   - intros Hb k. now apply backup_untouched.
 Qed.
 
+
+Lemma C17_atomic_under_unwinding_l :
+  forall cfg fn tok now chunk (f0 : fs) (ws : list bytes) k inited,
+  token_ok tok = true -> digits_ok now = true -> same_fs cfg = true ->
+  let t := apply (interrupted cfg fn tok now chunk f0 (save_ops ws) k inited) f0 fn in
+  t = f0 fn \/ t = Some (concat ws) \/ (f0 fn = None /\ t = Some []).
+Proof.
+  intros cfg fn tok now chunk f0 ws k inited Ht Hn Hs.
+  apply atomic_under_unwinding; auto using table_unwind_rolls_back.
+  unfold same_fs in Hs. now apply negb_true_iff in Hs.
+Qed.
+
+Lemma C17_unwinding_any_cfg_old_or_prefix_l :
+  forall cfg fn tok now chunk (f0 : fs) (ws : list bytes) k inited,
+  token_ok tok = true -> digits_ok now = true ->
+  let t := apply (interrupted cfg fn tok now chunk f0 (save_ops ws) k inited) f0 fn in
+  t = f0 fn \/ exists m, t = Some (firstn m (concat ws)).
+Proof. intros. apply unwinding_old_or_prefix; auto using table_unwind_rolls_back. Qed.
+
+Lemma C17_unwinding_removes_temp_l :
+  forall cfg fn tok now chunk (f0 : fs) (ops : list op) k,
+  token_ok tok = true -> digits_ok now = true ->
+  existsb is_closeF (firstn k (effects cfg fn tok now chunk f0 ops)) = false ->
+  apply (interrupted cfg fn tok now chunk f0 ops k true) f0 (temp_name cfg fn tok) = None.
+Proof. intros. apply unwinding_removes_temp; auto using table_unwind_rolls_back. Qed.
+
+Lemma C17_write_error_swallowed_refuted_l :
+  exists cfg fn tok now chunk (f0 : fs) (ws : list bytes) j,
+  token_ok tok = true /\ digits_ok now = true /\ same_fs cfg = true /\
+  gen.T17.SWALLOW_WRITE_ERROR_SITES <> [] /\
+  let t := apply (effects cfg fn tok now chunk f0 (swallowed_ops ws j)) f0 fn in
+  ~ (t = f0 fn \/ t = Some (concat ws) \/ (f0 fn = None /\ t = Some [])).
+Proof.
+  exists w_cfg_s, w_fn, w_tok, w_now, 6%nat, w_f0, w_ws, 1%nat. exact swallowed_refuted.
+Qed.
